@@ -29,15 +29,15 @@ func NewPatternMatcher(pattern string, exactCase bool) (*PatternMatcher, error) 
 // Match checks whether the input string matches the pattern.
 func (m *PatternMatcher) Match(ident string, exactCase bool) bool {
 	if m.exactCase != exactCase {
-		m.re, _ = compileRegexp(m.pattern, exactCase)
+		re, err := compileRegexp(m.pattern, exactCase)
+		if err != nil {
+			return false
+		}
+		m.re = re
 		m.exactCase = exactCase
 	}
 
-	s := ident
-	if !exactCase {
-		s = strings.ToLower(s)
-	}
-	return m.re.MatchString(s)
+	return m.re.MatchString(ident)
 }
 
 // compileRegexp compiles the given pattern into a regular expression.
@@ -50,7 +50,9 @@ func compileRegexp(pattern string, exactCase bool) (*regexp.Regexp, error) {
 		expr = fmt.Sprintf("^%v$", regexp.QuoteMeta(pattern))
 	}
 	if !exactCase {
-		expr = strings.ToLower(expr)
+		// Let the regexp engine fold case; lower-casing the expression text
+		// would also rewrite escapes such as \S, \W or \PL.
+		expr = "(?i)" + expr
 	}
 	re, err := regexp.Compile(expr)
 	if err != nil {
